@@ -281,6 +281,20 @@ def check_case(ctx, c):
                         continue
                     out.append(("offgrid:law:" + mod["m"], "%s at parameters %s: matrix is not the %s of the matrix of the gate it was applied to" % (desc, og[: c["base"]["np"]], law_)))
                     break
+        # the same gate reached from a base built at a SPECIAL point (all parameters 0, pi, 2 pi - where its matrix may be the identity
+        # or self-adjoint) and re-parametrised to the parameters of this case: the modified gate has the same matrix
+        if c["base"]["np"] > 0 and len(c["chain"]) <= 2 and law_ok:
+            for start in ([0, 0, 0], [2, 2, 2], [4, 4, 4]):
+                try:
+                    gs = apply_chain(base_gate(c["base"], cm, kk=start).replace_params(tuple(g0.params)), c["chain"])
+                    if not close(np_matrix(gs), M, 1e-8):
+                        out.append(("special-start", "%s: built from the base gate at %s*pi/2 and re-parametrised, the modified gate has another matrix" % (desc, start[: c["base"]["np"]])))
+                        break
+                except Timeout:
+                    raise
+                except Exception as ex:
+                    out.append(("special-start:raises", "%s from a base built at %s*pi/2: %s: %s" % (desc, start[: c["base"]["np"]], type(ex).__name__, str(ex)[:120])))
+                    break
         # exact comparison with the specification's meaning for ring trees
         if c["ring"]:
             S = mat(c["sem"])
